@@ -239,11 +239,12 @@ def value_params(v):
 
 _CHECKED = re.compile(r"core::num::<impl ([ui](?:8|16|32|64|128|size))>::(checked|wrapping|saturating|overflowing|strict|unchecked)_(add|sub|mul|div|rem|div_euclid|rem_euclid)$")
 _PLAIN = re.compile(r"core::num::<impl ([ui](?:8|16|32|64|128|size))>::(div_euclid|rem_euclid|abs_diff|min|max)$")
-_TRYFROM = re.compile(r"^<([ui](?:8|16|32|64|128|size)) as core::convert::TryFrom<([ui](?:8|16|32|64|128|size))>>::try_from$|"
-                      r"^<([ui](?:8|16|32|64|128|size)) as core::convert::TryInto<([ui](?:8|16|32|64|128|size))>>::try_into$")
+_TRYFROM = re.compile(r"impl core::convert::TryFrom<[ui](?:8|16|32|64|128|size)> for ([ui](?:8|16|32|64|128|size))>::try_from$|"
+                      r"^<([ui](?:8|16|32|64|128|size)) as core::convert::TryFrom<[ui](?:8|16|32|64|128|size)>>::try_from$")
 _RUNWRAP = re.compile(r"core::result::Result::<.*>::(unwrap|expect|unwrap_unchecked|unwrap_or|unwrap_or_default)$")
 _MINMAX = re.compile(r"core::cmp::(?:Ord::)?(min|max)$|as core::cmp::Ord>::(min|max)$")
-_CONV = re.compile(r"as core::convert::(?:From|Into)<.*>>::(?:from|into)$")
+_CONV = re.compile(r"as core::convert::(?:From|Into)<.*>>::(?:from|into)$|"
+                   r"impl core::convert::From<[ui](?:8|16|32|64|128|size)> for [ui](?:8|16|32|64|128|size)>::from$")
 _UNWRAP = re.compile(r"core::option::Option::<.*>::(unwrap|expect|unwrap_unchecked|unwrap_or|unwrap_or_default)$")
 _OPNAME = {"add": "Add", "sub": "Sub", "mul": "Mul", "div": "Div", "rem": "Rem", "div_euclid": "Div", "rem_euclid": "Rem"}
 
@@ -469,17 +470,25 @@ class Interp:
             return self._with_bits(v, cap)
         if not isinstance(v.unit, tuple):
             return self._with_bits(v, cap, ts)          # no unit: not a quantity the property talks about
+        if v.kind == "cast" and v.errs:
+            return self._with_bits(v, cap, ts)          # re-cast of an already reported lossy cast: one report per defect
         n = Node("cast", v.unit, op="cast", kids=(v,), fields=v.fields, params=v.params, chain=v.chain, where=where, ctx=ctx,
                  name="%s->%s" % (frm, to), has_const=v.has_const)
         n.bits, n.neg = cap, ts
         expr = tree_str(v, self.spec)
         what = "truncates" if bits > cap else "reinterprets the sign of"
         key = "R-CAST|%s|%s|%s->%s|%s|%s" % (self.entry, ">".join(ctx) or "-", frm, to, self.spec.ustr(v.unit), self.prov(v))
-        msg = ("`as %s` %s a quantity in %s, %s [%s], held in %s (up to %d significant bits by provenance, the target keeps %d): "
-               "values of 2^%d or more wrap, e.g. a %s that is 2^%d or more%s, so the result stops following the conversion formula"
-               % (to, what, self.spec.ustr(v.unit), expr, self.prov(v), frm, bits, cap, cap, self.spec.ustr(v.unit), cap,
-                  " past the anchor" if any(self.spec.fields.get(f, {}).get("role") == "known_slot" for f in v.fields) and v.params else ""))
-        n.errs.append(Err("R-CAST", key, msg, where, False, owner))
+        if bits > cap:
+            msg = ("`as %s` %s a quantity in %s, %s [%s], held in %s (up to %d significant bits by provenance, the target keeps %d): "
+                   "values of 2^%d or more wrap, e.g. a %s value that is 2^%d or more%s, so the result stops following the conversion formula"
+                   % (to, what, self.spec.ustr(v.unit), expr, self.prov(v), frm, bits, cap, cap, self.spec.ustr(v.unit), cap,
+                      " past the anchor" if any(self.spec.fields.get(f, {}).get("role") == "known_slot" for f in v.fields) and v.params else ""))
+        else:
+            msg = ("`as %s` %s a quantity in %s, %s [%s], held in %s: a negative value becomes a huge %s"
+                   % (to, what, self.spec.ustr(v.unit), expr, self.prov(v), frm, to))
+        # inside an inlined declared entry the same cast is reported by that entry's own analysis (its parameters have the full
+        # width of their types there, so it is lossy there whenever it is lossy here)
+        n.errs.append(Err("R-CAST", key, msg, where, True, owner))
         return n
 
     def cmp(self, op, l, r, where, ctx, owner):
@@ -750,7 +759,7 @@ class Interp:
         m = _TRYFROM.search(path)
         if m and len(args) == 1 and isinstance(args[0], Node):
             # checked conversion: on success the value is unchanged and fits the target
-            to = m.group(1) or m.group(4)
+            to = m.group(1) or m.group(2)
             tb = ty_bits(to)
             v = args[0]
             return [(Opt(self._with_bits(v, min(v.bits, tb[0] - (1 if tb[1] else 0)), v.neg and tb[1])), [])]
